@@ -288,22 +288,28 @@ Definition roundtrip_v1 := roundtrip_with recv_val_v1.
 
 (* ================================================================ Python values (strengthening round 2)
    from_local / to_() are handed a dictionary local name -> VALUE, where a value is a list of Python
-   objects or a single object (s_utils.do_ava, 307-327):
+   objects or a single object (s_utils.do_ava, 307-328, as coded NOW, after repair 33a3a3a1):
      str                -> one AttributeValue, set_text(str): xsi:type xs:string, the text itself
      list               -> [do_ava(v)[0] for v in val], left to right
-     val or val is False-> set_text(val): bool -> xs:boolean "true"/"false" (str(x).lower()),
-                           int -> xs:integer str(x)  (saml.AttributeValueBase.set_text, type_to_xsd)
      None               -> do_ava returns None (inside a list: None[0] raises TypeError)
-     anything else      -> falsy and neither False nor None, e.g. the integer 0:
-                           raise OtherError("strange value type on: 0")           [finding C17-F4]
+     val or isinstance(val, (bool, int, float))
+                        -> set_text(val): bool -> xs:boolean "true"/"false" (str(x).lower()),
+                           int -> xs:integer str(x), float -> xs:float str(x)
+                           (saml.AttributeValueBase.set_text, type_to_xsd)
+     anything else      -> raise OtherError (falsy objects of other types; not modelled)
+   Before 33a3a3a1 the test was `val or val is False` and came BEFORE the None test: the integer 0 and
+   the float 0.0 (falsy, not False, not None) raised OtherError("strange value type on: 0") — finding
+   C17-F4, kept as do_ava1_v0 and the *_v0 chain at the end of this file.
+   A float is PFloat r z: r = str(x) as Python prints it (data of the case, Coq has no floats here),
+   z = (x == 0).
    The eduPersonTargetedID branch (wire name = the OID) does not go through do_ava:
    to_eptid_value wraps every item as it is (str items; a single str is one item).
    Not modelled (DRaise UNMODELLED, never equal to an observed exception name, so a generated case
    of that kind is reported as a disagreement): a single None (the Attribute object gets
-   attribute_value = None), non-str items for the OID, floats, bytes, nested lists, dicts. *)
+   attribute_value = None), non-str items for the OID, nan/inf, bytes, nested lists, dicts. *)
 From Coq Require Import ZArith DecimalString.
 
-Inductive pyval := PStr (s : string) | PBool (b : bool) | PInt (z : Z) | PNone.
+Inductive pyval := PStr (s : string) | PBool (b : bool) | PInt (z : Z) | PFloat (r : string) (zero : bool) | PNone.
 Inductive pyvalue := VList (l : list pyval) | VOne (v : pyval).
 Definition pava := list (string * pyvalue).
 
@@ -321,8 +327,17 @@ Definition do_ava1 (v : pyval) : dres (option (string * string)) :=
   match v with
   | PStr s => DOk (Some ("xs:string", s))
   | PBool b => DOk (Some ("xs:boolean", if b then "true" else "false"))
-  | PInt z => if Z.eqb z 0 then DRaise "OtherError" else DOk (Some ("xs:integer", dec_of_Z z))
+  | PInt z => DOk (Some ("xs:integer", dec_of_Z z))
+  | PFloat r _ => DOk (Some ("xs:float", r))
   | PNone => DOk None
+  end.
+
+(* before 33a3a3a1: `elif val or val is False:` *)
+Definition do_ava1_v0 (v : pyval) : dres (option (string * string)) :=
+  match v with
+  | PInt z => if Z.eqb z 0 then DRaise "OtherError" else do_ava1 v
+  | PFloat _ zero => if zero then DRaise "OtherError" else do_ava1 v
+  | _ => do_ava1 v
   end.
 
 (* [do_ava(v)[0] for v in val] *)
@@ -409,3 +424,58 @@ Definition roundtrip_py (acs : list conv) (a : pava) (f : string) (allow xml : b
   | SNone => RNone
   | SExc e => RExc e
   end.
+
+(* ---------------------------------------------------------------- do_ava before 33a3a3a1 (finding
+   C17-F4): the chain above with the per-object function as a parameter *)
+Section OlderTyped.
+  Variable d1 : pyval -> dres (option (string * string)).
+
+  Fixpoint do_ava_list_with (l : list pyval) : dres (list (string * string)) :=
+    match l with
+    | [] => DOk []
+    | v :: r =>
+        match d1 v with
+        | DRaise e => DRaise e
+        | DOk None => DRaise "TypeError"
+        | DOk (Some x) => match do_ava_list_with r with DOk xs => DOk (x :: xs) | DRaise e => DRaise e end
+        end
+    end.
+
+  Definition do_ava_with (v : pyvalue) : dres (list (string * string)) :=
+    match v with
+    | VList l => do_ava_list_with l
+    | VOne x =>
+        match d1 x with
+        | DOk (Some tv) => DOk [tv]
+        | DOk None => DRaise UNMODELLED
+        | DRaise e => DRaise e
+        end
+    end.
+
+  Definition to_one_py_with (m : conv) (kv : string * pyvalue) : dres (wattr * list string) :=
+    if sends_eptid m (fst kv)
+    then match eptid_value (snd kv) with
+         | DOk vs => DOk (to_one m (fst kv, vs), map (fun _ => "") vs)
+         | DRaise e => DRaise e
+         end
+    else match do_ava_with (snd kv) with
+         | DOk tvs => DOk (to_one m (fst kv, map snd tvs), map fst tvs)
+         | DRaise e => DRaise e
+         end.
+
+  Definition from_local_py_with (acs : list conv) (a : pava) (f : string) : sres :=
+    match sender acs f with
+    | Some m => match dseq (map (to_one_py_with m) a) with DOk ws => SOk ws | DRaise e => SExc e end
+    | None => SNone
+    end.
+
+  Definition roundtrip_py_with (acs : list conv) (a : pava) (f : string) (allow xml : bool) : rres :=
+    match from_local_py_with acs a f with
+    | SOk ws => ROk (to_local acs allow (if xml then map harvest (map fst ws) else map fst ws))
+    | SNone => RNone
+    | SExc e => RExc e
+    end.
+End OlderTyped.
+
+Definition from_local_py_v0 := from_local_py_with do_ava1_v0.
+Definition roundtrip_py_v0 := roundtrip_py_with do_ava1_v0.
